@@ -717,7 +717,30 @@ def sn_invariant(ctx, repo, pci):
             if not assigns or fi.name == "__init__":
                 continue
             n += 1
-            exits, _ = analyse(fi, ci, {SN: Iv(0, 0xFFFF)})
+            env_in = {SN: Iv(0, 0xFFFF)}
+            # parameters: the interval of what the handler classes pass at every call site — a peer's sequence number (`<pdu>.sn`, the
+            # two-octet wire field) is 0..0xFFFF, constants are themselves; anything else leaves the parameter untracked (exit 2 if used)
+            a_ = fi.node.args
+            for p_i, p_ in enumerate([x.arg for x in a_.posonlyargs + a_.args][1:]):
+                ivs = []
+                for c2 in [pci] + [c for c in repo.mro(pci)[1:]]:
+                    for g in c2.methods.values():
+                        for call in _ast.walk(g.node):
+                            if isinstance(call, _ast.Call) and isinstance(call.func, _ast.Attribute) and call.func.attr == fi.name \
+                                    and isinstance(call.func.value, _ast.Name) and call.func.value.id in ("self", "cls"):
+                                arg = call.args[p_i] if len(call.args) > p_i else next((k.value for k in call.keywords if k.arg == p_), None)
+                                if isinstance(arg, _ast.Attribute) and arg.attr == "sn" and not (isinstance(arg.value, _ast.Name) and arg.value.id == "self"):
+                                    ivs.append(Iv(0, 0xFFFF))
+                                elif isinstance(arg, _ast.Constant) and isinstance(arg.value, int) and not isinstance(arg.value, bool):
+                                    ivs.append(Iv(arg.value, arg.value))
+                                else:
+                                    ivs.append(None)
+                if ivs and all(v is not None for v in ivs):
+                    j_ = ivs[0]
+                    for v in ivs[1:]:
+                        j_ = j_.join(v)
+                    env_in[p_] = j_
+            exits, _ = analyse(fi, ci, env_in)
             exits = [(ln, env.get(SN)) for ln, env in exits]
             bad = [(ln, iv) for ln, iv in exits if iv is None or iv.lo < 0 or iv.hi > 0xFFFF]
             ok = not bad and bool(exits)
